@@ -25,6 +25,7 @@ DE = "<popen::Popen as popen::os::PopenOsImpl>::do_exec"
 
 def run(ctx):
     prog = ctx.prog
+    config_defaults(ctx, prog, 'R06.8', ['executable', 'env', 'cwd', 'setuid', 'setgid', 'setpgid'])
     fm = ForkModel(prog)
     if not fm.ok:
         ctx.ob("R06.0", "fork-model", False, "", "no unique fork site")
